@@ -64,7 +64,7 @@ CHECKS = {
         },
         "runs": [seq("HarnessC01T1", ["c01-end"]), seq("HarnessC01T2", ["c01-end"]), seq("HarnessC01T3L1", ["c01-end"], ["quick"]),
                  seq("HarnessC01T4L1", ["c01-end"], ["quick"]), seq("HarnessC01T5", ["c01-end"]), seq("HarnessC01T6", ["c01-end"]),
-                 seq("HarnessC01T7", ["c01-end"]), seq("HarnessC01T8", ["c01-end"], ["quick"]), seq("HarnessC01T8L2", ["c01-end"], ["thorough"]), seq("HarnessC01T9", ["c01-end"]), conc("HarnessC02History2", ["c02-hist-end"]), conc("HarnessC05Seq", ["c05-end"]), seq("HarnessC01Gen2", ["c01-gen-end"]),
+                 seq("HarnessC01T7", ["c01-end"]), seq("HarnessC01T8", ["c01-end"], ["quick"]), seq("HarnessC01T8L2", ["c01-end"], ["thorough"]), seq("HarnessC01T9", ["c01-end"]), seq("HarnessC01T10", ["c01-end"]), conc("HarnessC02History2", ["c02-hist-end"]), conc("HarnessC05Seq", ["c05-end"]), conc("HarnessC04Aliasing", ["c04-aliasing-end"]), seq("HarnessC01Gen2", ["c01-gen-end"]),
                  seq("HarnessC01Gen2L2", ["c01-gen-end"], ["thorough"]), seq("HarnessC01Gen3", ["c01-gen-end"], ["thorough"]), seq("HarnessC01T3", ["c01-end"], ["thorough"]), seq("HarnessC01T4", ["c01-end"], ["thorough"]),
                  seq("HarnessC01T2L3", ["c01-end"], ["thorough"]), seq("HarnessC01T7L3", ["c01-end"], ["thorough"])],
         "bounds": {"quick": "8 types (scalars/durations, skipped fields in every position, nested+pointer+embedded structs, slices/maps/arrays, user pointers incl. two leaves aliasing one variable in the defaults, text-unmarshalable value+pointer, deep nesting, pointer-bearing arrays in slices / struct map keys holding pointers / pointer to an all-nilable struct); 2 layers (1 for the two biggest types); slices len<=2, maps <=1 entry; all scalar values; generated family: all 12+144 types of 1-2 fields over {int8,string,[]int16,map,*int,struct,*struct,[2]uint8,dials:\"-\",chan,func,text-unmarshalable}, 1 layer",
@@ -79,7 +79,7 @@ CHECKS = {
             "design_ref": "DESIGN.md §4 C02",
         },
         "runs": [conc("HarnessC02History2", ["c02-hist-end"]), seq("HarnessC01T4L1", ["c01-end"], ["quick"]), seq("HarnessC01T3L1", ["c01-end"], ["quick"]),
-                 seq("HarnessC01T6", ["c01-end"]), seq("HarnessC01T5", ["c01-end"]), seq("HarnessC01T8", ["c01-end"], ["quick"]), seq("HarnessC01T8L2", ["c01-end"], ["thorough"]), seq("HarnessC01T9", ["c01-end"]), conc("HarnessC02History3", ["c02-hist-end"], ["thorough"]),
+                 seq("HarnessC01T6", ["c01-end"]), seq("HarnessC01T5", ["c01-end"]), seq("HarnessC01T8", ["c01-end"], ["quick"]), seq("HarnessC01T8L2", ["c01-end"], ["thorough"]), seq("HarnessC01T9", ["c01-end"]), seq("HarnessC01T10", ["c01-end"]), conc("HarnessC02History3", ["c02-hist-end"], ["thorough"]),
                  seq("HarnessC01T4", ["c01-end"], ["thorough"]), seq("HarnessC01T3", ["c01-end"], ["thorough"])],
         "bounds": {"quick": "corpus types T3,T4,T5,T6,T8 with 1-2 layers (identity sets include map keys); 2 re-stacks with symbolic set/unset of a nested-pointer leaf and a scalar",
                    "thorough": "2 layers on T3/T4; 3 re-stacks"},
@@ -109,7 +109,7 @@ CHECKS = {
         },
         "runs": [conc("HarnessC04Quick", ["c04-end", "c04-config-rejected"]), conc("HarnessC04NonBlocking", ["c04-end"]),
                  {"entry": M + "/sourcewrap.HarnessC04Wrapped", "pkgs": SW, "must_reach": ["c04-wrapped-end"], "instrument": [M, M + "/sourcewrap"], "validate": 0},
-                 conc("HarnessC07Quick", ["c07-end"]), conc("HarnessC04Thorough", ["c04-end"], ["thorough"])],
+                 conc("HarnessC07Quick", ["c07-end"]), conc("HarnessC09Race", ["c09-race-end"]), conc("HarnessC04Aliasing", ["c04-aliasing-end"]), conc("HarnessC04Thorough", ["c04-end"], ["thorough"])],
         "bounds": {"quick": "1 watching source, 2 updates (blocking and plain), reader with 2 reads; 2 blocking reports of arbitrary validity through a transforming source; all schedules", "thorough": "3 updates"},
         "outside": "more updates/sources; callback queue overflow (64) is not reached",
         "assumptions": CONC_ASSUME,
@@ -174,7 +174,7 @@ CHECKS = {
             "note": "sequential harness (events are issued from one goroutine, callbacks observed at quiescence); racing EnableVerification with an in-flight update is covered by the schedules of the monitor/reporter rendezvous",
             "design_ref": "DESIGN.md §4 C09",
         },
-        "runs": [conc("HarnessC09Quick", ["c09-end"]), conc("HarnessC09NoWatcher", ["c09-end"]), conc("HarnessC09Race", ["c09-race-end"]), conc("HarnessC09EnableCancel", ["c09-enable-cancel-end"]), conc("HarnessC08StackError", ["c08-stackerr-end"]),
+        "runs": [conc("HarnessC09Quick", ["c09-end"]), conc("HarnessC09NoWatcher", ["c09-end"]), conc("HarnessC09Race", ["c09-race-end"]), conc("HarnessC09EnableCancel", ["c09-enable-cancel-end"]), conc("HarnessC08StackError", ["c08-stackerr-end"]), conc("HarnessC09NoVerify", ["c09-noverify-end"]),
                  conc("HarnessC09Thorough", ["c09-end"], ["thorough"])],
         "bounds": {"quick": "3 events; 4 Delay x suppress combinations plus SkipInitialVerification with/without suppress; initial validity symbolic; an EnableVerification call abandoned at an arbitrary moment, then retried; Verify fails for an external reason during EnableVerification calls that are documented not to verify", "thorough": "4 events"},
         "outside": "longer event sequences",
